@@ -35,7 +35,8 @@ import (
 )
 
 const rule = "exchange that is a batch with >= 2 members containing at least one failing member (backend error / HTTP error / connection close / unknown or malformed from / failed nonce lookup) or at least one signing request, " +
-	"or whose held backend calls are released in an order different from request order, or that runs against a process whose chain id was discovered with net_version; distinct by hash of the whole case (requests + backend script)"
+	"or whose held backend calls are released in an order different from request order, or that runs against a process whose chain id was discovered with net_version; or a session (a history of exchanges against a process started for it) in which the same from is named in two or more exchanges " +
+	"or an exchange follows a body whose answer is not judged; distinct by hash of the whole case (requests + backend script)"
 
 // ---------------------------------------------------------------------------
 // Case
@@ -156,7 +157,23 @@ const (
 	fromMalformed
 	fromUnknown
 	fromKnown
+	// fromUnusable: the address is listed by the wallet (a file is named for it) but the file
+	// holds another account's key, is not a key file, or has no usable password (proc.Decoy)
+	fromUnusable
 )
+
+// decoys are the wallet entries that are listed but must never sign; like the keys they
+// are the same in every process the pool starts.
+var decoys = proc.Decoys(proc.Keys(3))
+
+func decoyOf(addr [20]byte) *proc.Decoy {
+	for i := range decoys {
+		if decoys[i].Address == addr {
+			return &decoys[i]
+		}
+	}
+	return nil
+}
 
 func classifyFrom(raw json.RawMessage, keys []proc.WalletKey) (fromClass, [20]byte) {
 	var addr [20]byte
@@ -177,6 +194,9 @@ func classifyFrom(raw json.RawMessage, keys []proc.WalletKey) (fromClass, [20]by
 		if k.Address == addr {
 			return fromKnown, addr
 		}
+	}
+	if decoyOf(addr) != nil {
+		return fromUnusable, addr
 	}
 	return fromUnknown, addr
 }
@@ -572,9 +592,19 @@ func judgeExchange(c ExchangeCase) (vs []evid.Violation) {
 		}
 		return []evid.Violation{evid.V("process-starts", "the ffsigner process for chain config %+v does not come up: %v", c.Chain, err)}
 	}
+	vs, _ = runExchange(in, chain, c)
+	return vs
+}
+
+// runExchange performs one exchange against a running instance and judges it.  usable is
+// false when the instance cannot be used any more (it crashed or hangs; it was dropped).
+func runExchange(in *proc.Instance, chain *big.Int, c ExchangeCase) (vs []evid.Violation, usable bool) {
+	if len(in.Decoys) != len(decoys) {
+		return []evid.Violation{evid.V("harness", "the instance has %d decoy entries, the oracle knows %d", len(in.Decoys), len(decoys))}, true
+	}
 	plans, err := c.plans(in.Keys)
 	if err != nil {
-		return []evid.Violation{evid.V("harness", "%v", err)}
+		return []evid.Violation{evid.V("harness", "%v", err)}, true
 	}
 
 	// backend script
@@ -611,16 +641,92 @@ func judgeExchange(c ExchangeCase) (vs []evid.Violation) {
 		vs = append(vs, evid.V("process-survives", "the ffsigner process died during the exchange (request %s): %s", short(body), in.Signer.ExitInfo(2500)))
 		pool.NoteCrash()
 		pool.Drop(in)
-		return vs
+		return vs, false
 	}
 	if perr != nil {
 		// no usable answer although the process lives: start from a fresh process next time
 		pool.Drop(in)
-		return append(vs, evid.V("response", "no complete HTTP response within 60 s: %v", perr))
+		return append(vs, evid.V("response", "no complete HTTP response within 60 s: %v", perr)), false
 	}
 
 	vs = append(vs, judgeCalls(c, plans, calls, chain)...)
 	vs = append(vs, judgeResponse(c, plans, in.Keys, res.Body)...)
+	return vs, true
+}
+
+func sameChain(a, b Chain) bool {
+	if a.NetVersion != b.NetVersion || (a.Configured == nil) != (b.Configured == nil) {
+		return false
+	}
+	return a.Configured == nil || *a.Configured == *b.Configured
+}
+
+func judgeSession(sc SessionCase) (vs []evid.Violation) {
+	if len(sc.Steps) == 0 {
+		return []evid.Violation{evid.V("harness", "session without exchanges")}
+	}
+	probe := ExchangeCase{Chain: sc.Chain}
+	chain, err := probe.chainID()
+	if err != nil {
+		return []evid.Violation{evid.V("harness", "%v", err)}
+	}
+	if pool == nil {
+		return []evid.Violation{evid.V("harness", "process pool not initialised")}
+	}
+	var in *proc.Instance
+	if sc.Chain.Configured != nil {
+		v := chain.Int64()
+		in, err = pool.Fresh(&v, nil)
+	} else {
+		in, err = pool.Fresh(nil, json.RawMessage(sc.Chain.NetVersion))
+	}
+	if err != nil {
+		if errors.Is(err, proc.ErrBinary) {
+			fmt.Fprintf(os.Stderr, "INFRASTRUCTURE: %v\n", err)
+			os.Exit(2)
+		}
+		return []evid.Violation{evid.V("process-starts", "the ffsigner process for chain config %+v does not come up: %v", sc.Chain, err)}
+	}
+	live := true
+	defer func() {
+		if live {
+			pool.Drop(in)
+		}
+	}()
+	for si, st := range sc.Steps {
+		if len(st.Ex.Members) == 0 || (!st.Ex.Batch && len(st.Ex.Members) != 1) {
+			return append(vs, evid.V("harness", "exchange %d has %d members (batch=%v)", si, len(st.Ex.Members), st.Ex.Batch))
+		}
+		if !sameChain(st.Ex.Chain, sc.Chain) {
+			return append(vs, evid.V("harness", "exchange %d names another chain configuration than the session", si))
+		}
+		for _, b := range st.Before {
+			in.Backend.Install(&proc.Script{Default: proc.ResultReply(`"verif-unjudged"`), NonceDefault: proc.ResultReply(`"0x0"`), NonceOther: proc.ResultReply(`"` + nonceOther + `"`)})
+			_, perr := in.Signer.Post([]byte(b), 60*time.Second)
+			in.Backend.Finish()
+			if !in.Signer.Alive() || (perr != nil && in.Signer.WaitExit(750*time.Millisecond)) {
+				// the death of the process on such a body is C16's verdict; nothing to judge here
+				if rec != nil {
+					rec.Class("session:process-died-on-unjudged-body(no verdict here)")
+				}
+				live = false
+				pool.Drop(in)
+				return vs
+			}
+		}
+		v, usable := runExchange(in, chain, st.Ex)
+		for k := range v {
+			v[k].Detail = fmt.Sprintf("exchange %d of the session: %s", si, v[k].Detail)
+		}
+		vs = append(vs, v...)
+		if !usable {
+			live = false
+			return vs
+		}
+		if len(vs) >= 6 {
+			break
+		}
+	}
 	return vs
 }
 
@@ -682,7 +788,10 @@ func judgeCalls(c ExchangeCase, plans []plan, calls []proc.Call, chain *big.Int)
 			if !p.submit {
 				if len(got) != 0 {
 					why := map[fromClass]string{fromAbsent: "from is absent", fromMalformed: "from is malformed", fromUnknown: "from is not in the wallet", fromKnown: "the nonce lookup failed"}[p.class]
-					vs = append(vs, evid.V("nothing-submitted", "member %d: %s, yet %d call(s) (%s) reached the backend", i, why, len(got), got[0].Method))
+					if d := decoyOf(p.from); p.class == fromUnusable && d != nil {
+						why = fmt.Sprintf("the wallet's file for from (0x%s) cannot sign for it (%s)", d.AddrHex, d.Kind)
+					}
+					vs = append(vs, evid.V("nothing-submitted", "member %d: %s, yet %d call(s) (%s) reached the backend%s", i, why, len(got), got[0].Method, whoSigned(got[0], chain)))
 				}
 				continue
 			}
@@ -694,6 +803,26 @@ func judgeCalls(c ExchangeCase, plans []plan, calls []proc.Call, chain *big.Int)
 		}
 	}
 	return vs
+}
+
+// whoSigned names the signer of a forwarded raw transaction (for messages only).
+func whoSigned(cl proc.Call, chain *big.Int) string {
+	if cl.Method != "eth_sendRawTransaction" {
+		return ""
+	}
+	var ps []string
+	if json.Unmarshal(cl.Params, &ps) != nil || len(ps) != 1 || !strings.HasPrefix(ps[0], "0x") {
+		return ""
+	}
+	raw, err := hex.DecodeString(ps[0][2:])
+	if err != nil {
+		return ""
+	}
+	tx, err := decodeSigned(raw, chain)
+	if err != nil {
+		return ""
+	}
+	return fmt.Sprintf(": a transaction signed by 0x%x", tx.signer)
 }
 
 func judgeSigned(c ExchangeCase, i int, p plan, cl proc.Call, chain *big.Int) (vs []evid.Violation) {
@@ -824,6 +953,9 @@ func judgeResponse(c ExchangeCase, plans []plan, keys []proc.WalletKey, body []b
 			for _, k := range keys {
 				want = append(want, k.AddrHex)
 			}
+			for _, d := range decoys { // a file is named for them: they are part of the wallet's address set
+				want = append(want, d.AddrHex)
+			}
 			sort.Strings(got)
 			sort.Strings(want)
 			if bad || strings.Join(got, ",") != strings.Join(want, ",") {
@@ -840,6 +972,13 @@ func judgeResponse(c ExchangeCase, plans []plan, keys []proc.WalletKey, body []b
 				wantErr("eth_sendTransaction with a malformed from")
 			case p.class == fromUnknown:
 				wantErr("eth_sendTransaction from an address that is not in the wallet")
+			case p.class == fromUnusable:
+				// with no nonce in the request the pending nonce is looked up first; a backend
+				// error object whose own message is empty may be relayed as it is
+				if nr := c.nonceReply(p.from); len(m.Tx.Nonce) == 0 && nr.Kind == "rpcerror" && nr.Message == "" {
+					needMessage = false
+				}
+				wantErr("eth_sendTransaction from an address whose wallet file cannot sign for it (" + decoyOf(p.from).Kind + ")")
 			default:
 				// a backend error object whose own message is empty may be relayed as it is
 				if nr := c.nonceReply(p.from); nr.Kind == "rpcerror" && nr.Message == "" {
@@ -974,6 +1113,10 @@ func genJSON(rt *rapid.T, label string, depth int) string {
 	}
 }
 
+// idStringTexts are JSON texts of string ids, spelled by hand (valid JSON each).
+var idStringTexts = []string{`"say \"hi\""`, `"\""`, `"\\"`, `"\\\""`, `"a\\"`, `"\\\\"`, `"tab\there"`, `"nl\nhere"`, `"\b\f\n\r\t"`, `"\/path\/x"`, `"\u0041"`, `"\u00e9"`, `"\u00E9"`, `"\u0022quoted\u0022"`,
+	`"\u005c"`, `"\u0000"`, `"\u001f"`, `"\ud83d\ude00"`, `"\u2028\u2029"`, "\"\x7f\"", `"{\"id\":1}"`, `"[1,2]"`, `"null"`, `"1"`, `"id\":2,\"x\":\""`, `" "`, `"é"`, `"\\u0041"`}
+
 func genID(rt *rapid.T, label string, i int) (string, string) {
 	switch rapid.IntRange(0, 9).Draw(rt, label+".kind") {
 	case 0, 1, 2:
@@ -986,8 +1129,14 @@ func genID(rt *rapid.T, label string, i int) (string, string) {
 		v.Add(v, big.NewInt(int64(rapid.IntRange(0, 1000).Draw(rt, label+".off"))))
 		return v.String(), "id:big-int"
 	case 5:
-		return rapid.SampledFrom([]string{"1.5", "0.1", "-2.25", "1e2", "1E+2", "1.0", "12345678901234567890.5", "-0"}).Draw(rt, label+".frac"), "id:fraction-or-exponent"
-	case 6, 7:
+		// odd but valid spellings of numbers (RFC 8259 grammar)
+		return rapid.SampledFrom([]string{"1.5", "0.1", "-2.25", "1e2", "1E+2", "1.0", "12345678901234567890.5", "-0", "-0.0", "0e0", "0E-0", "1E2", "1e-2", "100e-2", "0.5e1", "1e+0", "-1E+2",
+			"1.000000000000000000000001", "1e30", "0.0", "10.0e0"}).Draw(rt, label+".frac"), "id:fraction-or-exponent"
+	case 6:
+		// strings whose JSON text needs care when it is copied: escaped quotes, backslashes, every
+		// short escape, \u escapes in both hex cases (also for characters that need none), DEL, U+2028
+		return rapid.SampledFrom(idStringTexts).Draw(rt, label+".text"), "id:string"
+	case 7:
 		return jsonString(rt, label, fmt.Sprintf("%s-%d", genString(rt, label+".s"), i)), "id:string"
 	default:
 		return jsonString(rt, label, genString(rt, label+".s")), "id:string"
@@ -1094,23 +1243,41 @@ func genNonceReply(rt *rapid.T, label string) proc.Reply {
 	return proc.ResultReply(`"0x` + v.Text(16) + `"`)
 }
 
-func genTx(rt *rapid.T, label string, keys []proc.WalletKey, maxData int) (*Tx, []string) {
+// spellAddr writes an address in one of the accepted spellings.
+func spellAddr(rt *rapid.T, label string, addr [20]byte) json.RawMessage {
+	h := hex.EncodeToString(addr[:])
+	switch rapid.IntRange(0, 2).Draw(rt, label+".fromfmt") {
+	case 0:
+		return json.RawMessage(jstr("0x" + h))
+	case 1:
+		return json.RawMessage(jstr("0x" + strings.ToUpper(h)))
+	default:
+		return json.RawMessage(jstr(eip55(addr)))
+	}
+}
+
+// genTx draws a transaction object.  cast (may be nil) is a short list of `from` values
+// of the history the transaction belongs to: most members of a history reuse them, so
+// that the same `from` is asked for again and again (F1).
+func genTx(rt *rapid.T, label string, keys []proc.WalletKey, maxData int, cast []json.RawMessage) (*Tx, []string) {
 	tx := &Tx{}
 	var cl []string
-	switch k := rapid.IntRange(0, 19).Draw(rt, label+".from"); {
-	case k < 13:
+	k := rapid.IntRange(0, 19).Draw(rt, label+".from")
+	if len(cast) > 0 && rapid.IntRange(0, 9).Draw(rt, label+".fromcast") < 8 {
+		k = -1
+	}
+	switch {
+	case k < 0:
+		tx.From = rapid.SampledFrom(cast).Draw(rt, label+".cast")
+	case k < 11:
 		key := keys[rapid.IntRange(0, len(keys)-1).Draw(rt, label+".key")]
-		var s string
-		switch rapid.IntRange(0, 2).Draw(rt, label+".fromfmt") {
-		case 0:
-			s = key.Addr0x()
-		case 1:
-			s = "0x" + strings.ToUpper(key.AddrHex)
-		default:
-			s = eip55(key.Address)
-		}
-		tx.From = json.RawMessage(jstr(s))
+		tx.From = spellAddr(rt, label, key.Address)
 		cl = append(cl, "sendtx:from-known")
+	case k < 14:
+		// listed by the wallet, but its file is mis-filed / unreadable / without password
+		d := decoys[rapid.IntRange(0, len(decoys)-1).Draw(rt, label+".decoy")]
+		tx.From = spellAddr(rt, label, d.Address)
+		cl = append(cl, "sendtx:from-unusable")
 	case k < 16:
 		b := gen.Bytes(rt, label+".unknown", 20)
 		tx.From = json.RawMessage(`"0x` + hex.EncodeToString(b) + `"`)
@@ -1185,7 +1352,7 @@ func genTx(rt *rapid.T, label string, keys []proc.WalletKey, maxData int) (*Tx, 
 
 // genMember draws one request with its backend reply.  Nothing in it depends on the
 // member's position, so that rapid can shrink a failing batch by deleting members.
-func genMember(rt *rapid.T, keys []proc.WalletKey, maxData int, fifo bool) Member {
+func genMember(rt *rapid.T, keys []proc.WalletKey, maxData int, fifo bool, cast []json.RawMessage) Member {
 	label := "m"
 	m := Member{}
 	if !fifo {
@@ -1193,7 +1360,11 @@ func genMember(rt *rapid.T, keys []proc.WalletKey, maxData int, fifo bool) Membe
 	}
 	id, _ := genID(rt, label+".id", rapid.IntRange(0, 99).Draw(rt, label+".idsuffix"))
 	m.ID = json.RawMessage(id)
-	switch k := rapid.IntRange(0, 9).Draw(rt, label+".kind"); {
+	k := rapid.IntRange(0, 9).Draw(rt, label+".kind")
+	if cast != nil && k >= 2 && k < 4 {
+		k = 4 // a history is mostly about signing requests
+	}
+	switch {
 	case k < 4:
 		m.Kind = "pass"
 		m.Method = rapid.SampledFrom(methodMenu).Draw(rt, label+".method")
@@ -1219,7 +1390,7 @@ func genMember(rt *rapid.T, keys []proc.WalletKey, maxData int, fifo bool) Membe
 		}
 	case k < 9:
 		m.Kind = "sendtx"
-		m.Tx, _ = genTx(rt, label+".tx", keys, maxData)
+		m.Tx, _ = genTx(rt, label+".tx", keys, maxData, cast)
 	default:
 		m.Kind = "accounts"
 		if rapid.Bool().Draw(rt, label+".noparams") {
@@ -1250,12 +1421,19 @@ func genExchange(rt *rapid.T, keys []proc.WalletKey, thorough bool) ExchangeCase
 	default:
 		c.Batch, lo, hi = true, 21, 64
 	}
+	fillExchange(rt, &c, keys, lo, hi, nil)
+	return c
+}
+
+// fillExchange draws the members and the nonce script of an exchange whose chain, salt
+// and shape are set.
+func fillExchange(rt *rapid.T, c *ExchangeCase, keys []proc.WalletKey, lo, hi int, cast []json.RawMessage) {
 	maxData := 70000
-	if hi > 20 {
+	if hi > 20 || cast != nil {
 		maxData = 2000
 	}
 	fifo := rapid.IntRange(0, 3).Draw(rt, "fifo") == 0
-	c.Members = rapid.SliceOfN(rapid.Custom(func(rt *rapid.T) Member { return genMember(rt, keys, maxData, fifo) }), lo, hi).Draw(rt, "members")
+	c.Members = rapid.SliceOfN(rapid.Custom(func(rt *rapid.T) Member { return genMember(rt, keys, maxData, fifo, cast) }), lo, hi).Draw(rt, "members")
 	if c.Batch && len(c.Members) > 1 {
 		// now and then two members share an id (alignment must then come from the position alone)
 		for i := 1; i < len(c.Members); i++ {
@@ -1267,7 +1445,8 @@ func genExchange(rt *rapid.T, keys []proc.WalletKey, thorough bool) ExchangeCase
 	used := map[string]bool{}
 	for _, m := range c.Members {
 		if m.Kind == "sendtx" {
-			if cls, addr := classifyFrom(m.Tx.From, keys); cls == fromKnown && len(m.Tx.Nonce) == 0 {
+			// the pending nonce is looked up for every well-formed from that comes without a nonce
+			if cls, addr := classifyFrom(m.Tx.From, keys); (cls == fromKnown || cls == fromUnusable) && len(m.Tx.Nonce) == 0 {
 				used[hex.EncodeToString(addr[:])] = true
 			}
 		}
@@ -1280,7 +1459,123 @@ func genExchange(rt *rapid.T, keys []proc.WalletKey, thorough bool) ExchangeCase
 	for _, a := range addrs {
 		c.Nonces = append(c.Nonces, NonceScript{Addr: a, Reply: genNonceReply(rt, "nonce."+a[:6])})
 	}
-	return c
+}
+
+// noiseMenu: bodies a session may post between its exchanges.  Their answers are not judged
+// here (unprocessable bodies belong to C16); what is judged is the NEXT well-formed exchange,
+// which must not inherit anything - id, method, params, a signed payload, a lock - from them.
+func noiseMenu(keys []proc.WalletKey) []string {
+	k0 := keys[0].Addr0x()
+	return []string{
+		`{"jsonrpc":"2.0","id":"stale-id","method":"stale_method","params":["stale-param",{"k":[1,2]}]}`,
+		`{"jsonrpc":"2.0","id":31337,"method":"eth_sendTransaction","params":[{"from":"` + k0 + `","nonce":"0x7","gas":"0x5208","to":"0x00000000000000000000000000000000000000dd","data":"0x5354414c45"}]}`,
+		`{"jsonrpc":"2.0","id":31338,"method":"eth_sendTransaction","params":[{"from":"` + decoys[0].Addr0x() + `","nonce":"0x7","gas":"0x5208","data":"0x5354414c45"}]}`,
+		`{"id":5,"method":"stale_method","params":{"a":1}}`,
+		`{"jsonrpc":"2.0","id":6,"method":"eth_sendTransaction","params":[{"from":"0x1234"}]}`,
+		`{"jsonrpc":"2.0","id":6,"method":"eth_sendTransaction","params":[{"from":"` + k0 + `","gas":true}]}`,
+		`{"jsonrpc":"2.0","method":"no_id"}`, `{}`, `null`, `[]`, `[null]`, `{"id":1}`, `not json`, ``, `[{"id":8,"method":"stale_batch_member","params":["s"]},7]`,
+	}
+}
+
+// Step is one exchange of a session, preceded by bodies whose answers are not judged.
+type Step struct {
+	Before []string     `json:"before,omitempty"`
+	Ex     ExchangeCase `json:"ex"`
+}
+
+// SessionCase is a HISTORY: several exchanges, one after the other, against a process that
+// is started for this case alone (so the case replays from the same state).  Every exchange
+// is judged exactly like a lone exchange: what the proxy does for a request must not depend
+// on what it was asked before (a cache filled by an earlier refusal, a pooled request
+// object, a lock left behind by a request that could not be processed).
+type SessionCase struct {
+	Chain Chain  `json:"chain"`
+	Steps []Step `json:"steps"`
+}
+
+func genSession(rt *rapid.T, keys []proc.WalletKey) SessionCase {
+	sc := SessionCase{Chain: rapid.SampledFrom(chainMenu).Draw(rt, "chain")}
+	// the cast: one to three `from` values that keep coming back, drawn from everything a
+	// from can be - signing accounts, wallet entries that cannot sign, strangers
+	var cast []json.RawMessage
+	for i, n := 0, rapid.IntRange(1, 3).Draw(rt, "castSize"); i < n; i++ {
+		label := fmt.Sprintf("cast%d", i)
+		switch k := rapid.IntRange(0, 9).Draw(rt, label+".kind"); {
+		case k < 4:
+			cast = append(cast, spellAddr(rt, label, keys[rapid.IntRange(0, len(keys)-1).Draw(rt, label+".key")].Address))
+		case k < 9:
+			cast = append(cast, spellAddr(rt, label, decoys[rapid.IntRange(0, len(decoys)-1).Draw(rt, label+".decoy")].Address))
+		default:
+			cast = append(cast, json.RawMessage(`"0x`+hex.EncodeToString(gen.Bytes(rt, label+".unknown", 20))+`"`))
+		}
+	}
+	noise := noiseMenu(keys)
+	n := rapid.IntRange(2, 6).Draw(rt, "steps")
+	for i := 0; i < n; i++ {
+		st := Step{Ex: ExchangeCase{Chain: sc.Chain, Salt: rapid.Uint32().Draw(rt, "salt")}}
+		if rapid.IntRange(0, 2).Draw(rt, "noisy") == 0 {
+			st.Before = rapid.SliceOfN(rapid.SampledFrom(noise), 1, 2).Draw(rt, "before")
+		}
+		lo, hi := 1, 1
+		if rapid.IntRange(0, 2).Draw(rt, "batch") == 0 {
+			st.Ex.Batch, lo, hi = true, 1, 4
+		}
+		fillExchange(rt, &st.Ex, keys, lo, hi, cast)
+		sc.Steps = append(sc.Steps, st)
+	}
+	return sc
+}
+
+// sessionClasses labels a session and evaluates the non-trivial rule on it: some `from`
+// is asked for in at least two different exchanges.
+func sessionClasses(sc SessionCase, keys []proc.WalletKey) (bool, []string) {
+	cl := map[string]bool{}
+	seenIn := map[string]map[int]bool{}
+	noisy := false
+	for si, st := range sc.Steps {
+		if len(st.Before) > 0 {
+			noisy = true
+		}
+		for _, x := range classesOf(st.Ex, keys) {
+			if strings.HasPrefix(x, "sendtx:from-") || strings.HasPrefix(x, "member:") {
+				cl[x] = true
+			}
+		}
+		for _, m := range st.Ex.Members {
+			if m.Kind != "sendtx" {
+				continue
+			}
+			cls, addr := classifyFrom(m.Tx.From, keys)
+			if cls != fromKnown && cls != fromUnusable && cls != fromUnknown {
+				continue
+			}
+			key := hex.EncodeToString(addr[:])
+			if seenIn[key] == nil {
+				seenIn[key] = map[int]bool{}
+			}
+			seenIn[key][si] = true
+			if len(seenIn[key]) >= 2 {
+				name := map[fromClass]string{fromKnown: "signing-account", fromUnknown: "unknown-address", fromUnusable: "unusable-wallet-entry"}[cls]
+				if d := decoyOf(addr); d != nil {
+					name += "(" + d.Kind + ")"
+				}
+				cl["session:same-from-in-several-exchanges:"+name] = true
+			}
+		}
+	}
+	if noisy {
+		cl["session:exchange-after-unjudged-body"] = true
+	}
+	nt := false
+	out := []string{fmt.Sprintf("session:exchanges=%d", len(sc.Steps))}
+	for k := range cl {
+		if strings.HasPrefix(k, "session:same-from") {
+			nt = true
+		}
+		out = append(out, k)
+	}
+	sort.Strings(out)
+	return nt || noisy, out
 }
 
 // classesOf labels a case for the evidence histogram (computed from the case, not from the draws).
@@ -1299,6 +1594,7 @@ func classesOf(c ExchangeCase, keys []proc.WalletKey) []string {
 		cl["shape:batch-21..64"] = true
 	}
 	ids := map[string]bool{}
+	fromSeen := map[string]int{}
 	for _, m := range c.Members {
 		id := string(m.ID)
 		if ids[id] {
@@ -1308,6 +1604,15 @@ func classesOf(c ExchangeCase, keys []proc.WalletKey) []string {
 		switch {
 		case strings.HasPrefix(id, `"`):
 			cl["id:string"] = true
+			if strings.Contains(id, `\"`) || strings.Contains(id, `\u0022`) {
+				cl["id:string-with-escaped-quote"] = true
+			}
+			if strings.Contains(id, `\\`) {
+				cl["id:string-with-backslash"] = true
+			}
+			if strings.Contains(id, `\u`) {
+				cl["id:string-with-\\u-escape"] = true
+			}
 		case strings.ContainsAny(id, ".eE"):
 			cl["id:fraction-or-exponent"] = true
 		case strings.HasPrefix(id, "-"):
@@ -1334,8 +1639,15 @@ func classesOf(c ExchangeCase, keys []proc.WalletKey) []string {
 		case "sendtx":
 			cl["member:eth_sendTransaction"] = true
 			tx := m.Tx
-			cls, _ := classifyFrom(tx.From, keys)
-			cl["sendtx:from-"+map[fromClass]string{fromAbsent: "absent", fromMalformed: "malformed", fromUnknown: "unknown", fromKnown: "known"}[cls]] = true
+			cls, faddr := classifyFrom(tx.From, keys)
+			cl["sendtx:from-"+map[fromClass]string{fromAbsent: "absent", fromMalformed: "malformed", fromUnknown: "unknown", fromKnown: "known", fromUnusable: "unusable"}[cls]] = true
+			if d := decoyOf(faddr); cls == fromUnusable && d != nil {
+				cl["sendtx:from-unusable:"+d.Kind] = true
+			}
+			fromSeen[hex.EncodeToString(faddr[:])]++
+			if cls >= fromUnknown && fromSeen[hex.EncodeToString(faddr[:])] == 2 {
+				cl["sendtx:same-from-twice-in-one-batch"] = true
+			}
 			if len(tx.Nonce) > 0 {
 				cl["sendtx:nonce-supplied"] = true
 			} else {
@@ -1464,13 +1776,20 @@ func TestCheck(t *testing.T) {
 	rec = evid.Start("C09", rule)
 	defer rec.Finish()
 	setup(t)
-	rec.Assume("real ffsigner binary built from the tree under test; wallet of 3 keys in cheap-KDF Keystore-V3 files; scripted HTTP JSON-RPC backend inside the harness")
+	rec.Assume("real ffsigner binary built from the tree under test; wallet of 3 keys in cheap-KDF Keystore-V3 files plus 5 entries that are listed (a file is named for the address) but must never sign: another wallet account's key file stored under the address's name, a foreign key under it, a file that is no key file, a wrong password file, no password file; scripted HTTP JSON-RPC backend inside the harness")
+	rec.Assume("histories: exchanges share long-lived processes (what an earlier case left behind must not matter), and the kind session runs 2..6 exchanges that keep naming the same from values against a process started for the case alone; every exchange is judged by the same history-free oracle; bodies posted between the exchanges of a session (unprocessable ones included) are not judged here")
 	rec.Assume("oracle: ref/rlpref strict decode + ref/secp recovery over the EIP-155 / EIP-1559 preimage; ref/jsonrpc response validation and number-preserving comparison")
 	rec.Assume("not asserted: HTTP status codes; backend bodies that are not JSON-RPC objects with HTTP 200 (bare null etc.); backend error objects with code 0; the count and block tag of auxiliary eth_getTransactionCount calls (only the signed nonce is judged); personal_accounts")
 	rec.Assume("completion orders of concurrent batch members are sampled through the backend's release barrier (generated permutation), not enumerated; a barrier time-out changes no verdict")
 	kEx := evid.NewKind(rec, "exchange", judgeExchange)
+	kSess := evid.NewKind(rec, "session", judgeSession)
 	rec.Corpus(t)
 	keys := proc.Keys(3)
+	rec.Rapid(t, "session", rec.N(60, 400), func(rt *rapid.T) {
+		sc := genSession(rt, keys)
+		nt, cl := sessionClasses(sc, keys)
+		kSess.Check(rt, sc, nt, cl...)
+	})
 	rec.Rapid(t, "exchange", rec.N(600, 3000), func(rt *rapid.T) {
 		c := genExchange(rt, keys, rec.Thorough())
 		nt, more := nonTrivial(c, keys)
@@ -1486,5 +1805,6 @@ func TestReplay(t *testing.T) {
 	rec = evid.Start("C09", rule)
 	setup(t)
 	evid.NewKind(rec, "exchange", judgeExchange)
+	evid.NewKind(rec, "session", judgeSession)
 	rec.Replay(t)
 }
